@@ -62,7 +62,10 @@ def install_contract(ctx):
         if outside.size and np.any(outside != 0):
             state["violations"].append(("writes-outside-own-row", {"row": int(target_gram_ind), "slice": [lo, hi], "touched": np.nonzero(d)[0].tolist()[:10]}))
         tot = float(d.sum())
-        if np.any(d < -1e-7) or not (abs(tot) <= 1e-5 or abs(tot - 1.0) <= 1e-5):
+        # the posterior array is float32: each touched cell is rounded to its own ulp, which grows with the accumulated value
+        touched = int(np.count_nonzero(d))
+        slack = 1e-5 + 4.0 * 2.0**-24 * touched * float(max(np.max(np.abs(result)), 1.0))
+        if np.any(d < -slack) or not (abs(tot) <= slack or abs(tot - 1.0) <= slack):
             state["violations"].append(("mass-not-0-or-1", {"row": int(target_gram_ind), "added": tot}))
         return True
 
